@@ -29,6 +29,88 @@ __attribute__((noinline)) static void vp_payload_section_end(mx_t* m) {
   m->sections++;
 }
 
+// hammer mode: tight lock/unlock loops against tight trylock loops (no yields or sleeps inside), for windows that have no
+// hook point (e.g. inside trylock itself); a waiter stranded on a free mutex shows up at logical quiescence
+static _Atomic int hammer_lockers_left;
+static void* hammer_locker(void* a) {
+  fb_slot_t* s = (fb_slot_t*)a;
+  mx_t* m = &mx[0];
+  int i;
+  s->a = 0;
+  for (i = 0; i < iters * 40; ++i) {
+    FB_BLOCKING(s, "C03 fiber_mutex_lock", fiber_mutex_lock(&m->mu));
+    const int prev = atomic_fetch_add(&m->occ, 1);
+    if (prev != 0) vp_violation("C03", "mutex:two-owners", "trial %d (hammer): fiber %d acquired the mutex while %d other fiber(s) are inside", trial, s->id, prev);
+    vp_payload_section(m, s->id);
+    vp_payload_section_end(m);
+    atomic_fetch_sub(&m->occ, 1);
+    fiber_mutex_unlock(&m->mu);
+    vp_add(c_sections, 1);
+  }
+  atomic_fetch_sub(&hammer_lockers_left, 1);
+  return NULL;
+}
+static void* hammer_trylocker(void* a) {
+  fb_slot_t* s = (fb_slot_t*)a;
+  mx_t* m = &mx[0];
+  long n = 0;
+  while (atomic_load(&hammer_lockers_left) > 0) {
+    if (fiber_mutex_trylock(&m->mu) == FIBER_SUCCESS) {
+      const int prev = atomic_fetch_add(&m->occ, 1);
+      if (prev != 0) vp_violation("C03", "mutex:two-owners", "trial %d (hammer): trylock by fiber %d succeeded while %d other fiber(s) are inside", trial, s->id, prev);
+      vp_payload_section(m, s->id);
+      vp_payload_section_end(m);
+      atomic_fetch_sub(&m->occ, 1);
+      fiber_mutex_unlock(&m->mu);
+      vp_add(c_try_ok, 1);
+      vp_add(c_sections, 1);
+    } else {
+      vp_add(c_try_fail, 1);
+    }
+    if ((++n & 63) == 0) fiber_yield();
+    vp_progress();
+  }
+  return NULL;
+}
+
+// logical check (watchdog thread): a fiber is suspended inside fiber_mutex_lock with no wake-up pending while the mutex
+// counter says "free, nobody announced" - in a correct mutex that combination cannot exist, however long one looks
+static _Atomic int mutex_phase_active;
+static void mutex_periodic(void) {
+  static int streak;
+  static void* last_f;
+  if (!atomic_load(&mutex_phase_active)) {
+    streak = 0;
+    return;
+  }
+  const int n = atomic_load(&fb_nslots);
+  int i;
+  for (i = 0; i < n && i < FB_MAX_SLOTS; ++i) {
+    fb_slot_t* sl = &fb_slots[i];
+    const char* w = atomic_load(&sl->where);
+    if (!w || strcmp(w, "C03 fiber_mutex_lock") || !sl->fiber) continue;
+    vp_gfiber_t* g = vp_ghost_lookup(sl->fiber);
+    if (!g || atomic_load(&g->destroyed)) continue;
+    const uint64_t in0 = atomic_load(&g->switches_in);
+    if (atomic_load(&g->running_on) != -1 || atomic_load(&g->pending) != 0) continue;
+    mx_t* m = &mx[sl->a % MAXM];
+    if (atomic_load(&m->mu.counter) != 1 || atomic_load(&m->occ) != 0) continue;
+    if (atomic_load(&g->switches_in) != in0 || atomic_load(&sl->where) != w || atomic_load(&g->pending) != 0) continue;
+    if (last_f == (void*)sl->fiber) {
+      if (++streak >= 4) {
+        vp_violation("C03", "mutex:waiter-on-free-mutex", "trial %d: fiber %d is suspended in fiber_mutex_lock with no wake-up pending while the mutex is free (counter 1, nobody inside)", trial, sl->id);
+        vp_ghost_dump(stderr, 20);
+        vp_finish();
+      }
+    } else {
+      last_f = (void*)sl->fiber;
+      streak = 1;
+    }
+    return;
+  }
+  streak = 0;
+}
+
 static void* mutex_fiber(void* a) {
   fb_slot_t* s = (fb_slot_t*)a;
   int i;
@@ -48,6 +130,7 @@ static void* mutex_fiber(void* a) {
         vp_add(c_try_fail, 1);
       }
     }
+    s->a = (long)(m - mx);
     if (!got) FB_BLOCKING(s, "C03 fiber_mutex_lock", fiber_mutex_lock(&m->mu));
     const int prev = atomic_fetch_add(&m->occ, 1);
     if (prev != 0)
@@ -87,6 +170,7 @@ void* sy_mutex_root(void* x) {
   c_trials = vp_counter("mutex_trials");
   c_contended = vp_counter("mutex_contended_acquisitions");
   uint64_t rng = vp_mix(vp_cfg.seed, 303);
+  vp_set_periodic(mutex_periodic);
   for (trial = 0; trial < trials; ++trial) {
     nm = 1 + (int)(vp_rand(&rng) % MAXM);
     const int F = 2 + (int)(vp_rand(&rng) % (unsigned)(maxf - 1));
@@ -99,8 +183,20 @@ void* sy_mutex_root(void* x) {
     fiber_manager_all_stats(&st0);
     fb_slots_reset();
     fb_slot_t* sl[256];
-    for (i = 0; i < F && i < 256; ++i) sl[i] = fb_spawn(mutex_fiber, NULL);
+    const int hammer = (trial % 3) == 2;
+    if (hammer) {
+      nm = 1;
+      const int L = 2 + (int)(vp_rand(&rng) % 12), T = 1 + (int)(vp_rand(&rng) % 6);
+      atomic_store(&hammer_lockers_left, L);
+      for (i = 0; i < L; ++i) sl[i] = fb_spawn(hammer_locker, NULL);
+      for (; i < L + T; ++i) sl[i] = fb_spawn(hammer_trylocker, NULL);
+      vp_count("mutex_hammer_trials", 1);
+    } else {
+      for (i = 0; i < F && i < 256; ++i) sl[i] = fb_spawn(mutex_fiber, NULL);
+    }
+    atomic_store(&mutex_phase_active, 1);
     fb_join_all(sl, i);
+    atomic_store(&mutex_phase_active, 0);
     fiber_manager_all_stats(&st1);
     long sum = 0;
     uint64_t sig = (uint64_t)F * 131 + (uint64_t)nm;
@@ -114,7 +210,7 @@ void* sy_mutex_root(void* x) {
                      atomic_load(&mx[i].mu.counter));
       fiber_mutex_destroy(&mx[i].mu);
     }
-    if (sum != (long)F * iters)
+    if (!hammer && sum != (long)F * iters)
       vp_violation("C03", "mutex:lost-update", "trial %d: %ld sections counted under the mutexes, expected %ld", trial, sum, (long)F * iters);
     const long contended = (long)(st1.lock_contention_count - st0.lock_contention_count);
     vp_add(c_contended, contended);
